@@ -155,6 +155,37 @@ def run(ctx, model):
                               detail=f"{k} {getattr(t, 'name', '')}")
     ctx.floor("R-DEC-SKELETON", ctx.rule_counts.get("R-DEC-SKELETON", 0), 80, "decimal configurations")
 
+    # ---------------- R-DEC-CONTEXT: in matching mode a numeral WITHOUT integer part is accepted in a context exactly
+    # when the same numeral with integer part 0 is (the statement's "an integer part ... or no integer part at all"):
+    # evaluated on the full composed term (Integer family interpreted too) with the framework's own matcher.
+    from . import e2e as _e2e
+    for cname, signs, skip_pre in (("NegativeDecimal", ["-"], ()), ("UnsignedDecimal", [""], ()), ("PositiveDecimal", ["", "+"], ("-", "+"))):
+        ci = model.cls(ESS, cname)
+        f = ci.methods["__init__"]
+        for mind, maxd in ((1, 1), (2, 3)):
+            kw = {"start": 0, "end": 9, "min_decimal": mind, "max_decimal": maxd, "is_extensible": False}
+            k, t = FL.build(model, cname, [], kw)
+            inp = f"{cname}({', '.join(f'{a}={b}' for a, b in kw.items())})"
+            if k != "term":
+                continue
+            bad = []
+            frac = "5" * mind
+            for sg in signs:
+                for pre in ["", "x", "_", "Z", " ", ".", "-", "+", ":", "\n", "\u00e9"]:
+                    if pre in skip_pre and sg == "":
+                        continue
+                    for post in ["", "x", " ", "."]:
+                        a = _e2e.accepts(t, pre, sg + "." + frac, post)
+                        b = _e2e.accepts(t, pre, sg + "0." + frac, post)
+                        ctx.instance("R-DEC-CONTEXT", key=(inp, sg, pre, post))
+                        if a != b:
+                            bad.append(f"{pre!r}+{(sg + '.' + frac)!r}+{post!r}: {'accepted' if a else 'rejected'}, but with integer part 0: {'accepted' if b else 'rejected'}")
+            if bad:
+                ctx.violation("R-DEC-CONTEXT", f.relpath, f.short, "context of the no-integer alternative",
+                              "a numeral without integer part is not accepted in exactly the contexts in which the same numeral "
+                              "with integer part 0 is accepted", f.node.lineno, inp=inp, detail="; ".join(bad[:3]))
+    ctx.floor("R-DEC-CONTEXT", ctx.rule_counts.get("R-DEC-CONTEXT", 0), 200, "context comparisons")
+
     # ---------------- R-E2E: the text emitted by the real core builders denotes the composed term
     from . import e2e
     cfgs = [("Decimal", [0, 9, 1, 3]), ("Decimal", [], {"start": 0, "end": 50, "min_decimal": 2, "max_decimal": 2, "include_sign": True}),
